@@ -765,6 +765,79 @@ theorem C17_route_empty_path (verbs : List Bytes) : routeAll (requestPath [] [])
 theorem C17_route_star_path (verbs : List Bytes) : routeAll (requestPath [] [42]) verbs = .ok none :=
   C17_route_no_leading_slash [] [42] verbs (by decide)
 
+/-! #### `RouteHTTP` as a whole = C03's `routePath` (round 6) -/
+
+theorem C17_route_loop_is_C03 {ι : Type} (comps : List Bytes) (last : Bytes) (hne : comps ≠ []) (rts : List (GB.C03.Route ι)) :
+    ∃ l, (rts.map (·.verb)).mapM (routeIter comps last comps.length) = .ok l ∧
+      consumeSlices l rts = GB.C03.iterate comps last rts := by
+  induction rts with
+  | nil => exact ⟨[], rfl, rfl⟩
+  | cons r rs ih =>
+    obtain ⟨s, hs, _, heq⟩ := C17_route_step_is_C03 comps last r hne
+    obtain ⟨l, hl, hc⟩ := ih
+    refine ⟨s :: l, ?_, ?_⟩
+    · simp [List.mapM_cons, C17_route_iter_eq, hs, hl, bind, Except.bind, pure, Except.pure]
+    · simp only [consumeSlices, GB.C03.iterate]
+      rw [heq, hc]
+      cases s with
+      | comps mc v => simp only []; generalize r.run mc v = x; cases x <;> rfl
+      | invalid => rfl
+      | skipRoute => rfl
+
+theorem goIndexL_last (xs : List Bytes) (last : Bytes) (h : xs.getLast? = some last) :
+    goIndexL xs ((xs.length : Int) - 1) = .ok last := by
+  have hne : xs ≠ [] := by intro e; simp [e] at h
+  have hpos : 1 ≤ xs.length := by
+    cases xs with | nil => exact absurd rfl hne | cons _ _ => simp
+  unfold goIndexL
+  rw [if_pos (by omega)]
+  have e : ((xs.length : Int) - 1).toNat = xs.length - 1 := by omega
+  rw [e, ← List.getLast?_eq_getElem?, h]
+
+/-- **`RouteHTTP` as a whole IS C03's `routePath`, for every path and every route table**: the Fault-explicit
+    model (prefix test, `path[1:]`, `pathComponents[len-1]`, the shared re-sliced buffer, the per-route verb cut
+    with its index arithmetic) never faults, and feeding what it hands to the matcher — every route of the method's
+    list, in order — through the routes' own `MatchAndEscape` gives exactly `GB.C03.routePath`'s result (found id and
+    captures, NotFound, InvalidArgument), not just route-by-route agreement. -/
+theorem C17_route_all_is_C03 {ι : Type} (tbl : List (GB.C03.Route ι)) (method path : Bytes) :
+    ∃ rs, routeAll path ((tbl.filter fun r => r.httpMethod == method).map (·.verb)) = .ok rs ∧
+      routeAllResult rs (tbl.filter fun r => r.httpMethod == method) = GB.C03.routePath tbl method path := by
+  unfold routeAll GB.C03.routePath
+  cases path with
+  | nil => exact ⟨none, rfl, rfl⟩
+  | cons c p =>
+    by_cases hc : c = 47
+    · subst hc
+      have hp : hasPrefix (47 :: p) [47] = true := by simp [hasPrefix, List.isPrefixOf]
+      have hs : goSliceFrom (47 :: p) 1 = .ok p := by
+        have := goSlice_eq (47 :: p) 1 (47 :: p).length (by simp)
+        simpa [goSliceFrom] using this
+      have hne := splitSlash_ne_nil p
+      cases hl : (GB.C03.splitSlash p).getLast? with
+      | none => simp [List.getLast?_eq_none_iff] at hl; exact absurd hl hne
+      | some last =>
+        obtain ⟨l, h1, h2⟩ := C17_route_loop_is_C03 (GB.C03.splitSlash p) last hne (tbl.filter fun r => r.httpMethod == method)
+        refine ⟨some l, ?_, ?_⟩
+        · simp only [hp, Bool.not_true, Bool.false_eq_true, ↓reduceIte, hs, bind, Except.bind,
+            goIndexL_last _ last hl, h1]
+        · simp only [routeAllResult, hl, h2]
+    · have hp : hasPrefix (c :: p) [47] = false := by simp [hasPrefix, List.isPrefixOf, Ne.symm hc]
+      refine ⟨none, by simp [hp], ?_⟩
+      simp only [routeAllResult]
+      split
+      · rename_i heq; cases heq; exact absurd rfl hc
+      · rfl
+
+/-- with the path choice (`RawPath`, else `EscapedPath()`) in front: the whole of `RouteHTTP` = `GB.C03.routeHTTP` -/
+theorem C17_route_http_is_C03 {ι : Type} (tbl : List (GB.C03.Route ι)) (method : Bytes) (u : GB.C03.Url) :
+    ∃ rs, routeAll (requestPath u.rawPath (GB.C03.escapedPath u)) ((tbl.filter fun r => r.httpMethod == method).map (·.verb)) = .ok rs ∧
+      routeAllResult rs (tbl.filter fun r => r.httpMethod == method) = GB.C03.routeHTTP tbl method u := by
+  have hpc : requestPath u.rawPath (GB.C03.escapedPath u) = GB.C03.pathChoice u := by
+    unfold requestPath GB.C03.pathChoice
+    cases u.rawPath <;> simp
+  rw [hpc]
+  exact C17_route_all_is_C03 tbl method (GB.C03.pathChoice u)
+
 /-! ### parseMetadataQuery as a whole: the lazily created maps -/
 
 theorem C17_md_vals_loop (mk : Bytes) (vals : List Bytes) (md : NilMap GB.C19.MD) :
